@@ -1220,3 +1220,31 @@ def key_fields(P, B, key_op, ty):
                         for HB in bodies_of_fn(P, n):
                             fields |= fields_touched(HB, ty)
     return fields, helpers
+
+
+# ------------------------------------------------------- truncating bigint reads ----
+def check_bigint_truncation(ctx, P, rule):
+    """bigint_to_u64 reads only the 8 low-order digits. Every caller must have established that the operand has at
+    most 8 digits (on the path to the call), otherwise two different big integers are treated as the same number."""
+    n = 0
+    for mod in ('term', 'borrowed'):
+        fn = 'erltf::%s::bigint_to_u64' % mod
+        if P.B(fn) is None:
+            continue
+        seen = {}
+        for c, bb, t in P.callers_of(lambda nm, fn=fn: nm == fn):
+            B = P.B(c)
+            R = Ranges(B)
+            n += 1
+            a = canon(B, t['args'][0])
+            inst = uniq_key(seen, '%s->bigint_to_u64(%s)' % (c, describe(B, a)))
+            proven = False
+            for k, v in R.facts_at(bb).items():
+                if isinstance(k, tuple) and k and k[0] == 'len' and v[1] <= 8 and 'digits' in str(k) and str(a) in str(k):
+                    proven = True
+            if proven:
+                ctx.ok(rule, inst, 'the operand is known to have at most 8 digits here', ctx.where(B, bb))
+            else:
+                ctx.bad(rule, inst, 'bigint_to_u64 keeps only the 8 low-order digits, and %s is not known to have at most 8 digits at this call: big integers that agree modulo 2^64 are compared as equal '
+                        '(as map keys: merged)' % describe(B, a), ctx.where(B, bb), key='CAST:%s:bigint_to_u64-unguarded' % c)
+    return n
